@@ -71,3 +71,164 @@ pub trait ExAsRef<T: core::marker::PointeeSized>: core::marker::PointeeSized {
 pub assume_specification<T, A: core::alloc::Allocator> [<Vec<T, A> as AsRef<[T]>>::as_ref] (v: &Vec<T, A>) -> (r: &[T])
     ensures r@ == v@;
 } // verus!
+
+// ===========================================================================
+// I/O components (user supplied): abstract ghost state + assumed behavioural contracts.
+// A sink/source may split transfers arbitrarily and may fail at any call.
+// ===========================================================================
+verus! {
+pub mod vio {
+use vstd::prelude::*;
+use std::io;
+
+#[verifier::external_type_specification]
+#[verifier::external_body]
+pub struct ExIoError(std::io::Error);
+
+#[verifier::external_type_specification]
+pub struct ExSeekFrom(std::io::SeekFrom);
+
+/// all bytes the sink has accepted so far (ghost log)
+pub uninterp spec fn sink_bytes<W: ?Sized>(w: &W) -> Seq<u8>;
+/// validity predicate of a sink (for wrappers: their representation invariant)
+pub uninterp spec fn sink_wf<W: ?Sized>(w: &W) -> bool;
+/// number of successful flush calls that left nothing buffered: the sink is flushed iff flushed_len == |sink_bytes|
+pub uninterp spec fn sink_flushed_len<W: ?Sized>(w: &W) -> int;
+/// content of a source (never changes), current position, and whether it is a plain in-memory style source
+/// that fails only when asked for bytes beyond its end
+pub uninterp spec fn rd_bytes<R: ?Sized>(r: &R) -> Seq<u8>;
+pub uninterp spec fn rd_pos<R: ?Sized>(r: &R) -> int;
+pub uninterp spec fn rd_reliable<R: ?Sized>(r: &R) -> bool;
+/// number of block loads (one per length-prefixed block read) performed on this source (C16 ghost counter)
+pub uninterp spec fn rd_loads<R: ?Sized>(r: &R) -> int;
+
+/// physical bound: no sink ever accepted 2^62 bytes (used only to discharge counter overflow)
+pub axiom fn axiom_sink_physical<W: ?Sized>(w: &W)
+    ensures sink_bytes(w).len() < 0x4000_0000_0000_0000;
+
+#[verifier::external_trait_specification]
+pub trait ExWrite {
+    type ExternalTraitSpecificationFor: std::io::Write;
+    /// may accept any prefix of buf, or fail (then nothing was accepted)
+    fn write(&mut self, buf: &[u8]) -> (r: io::Result<usize>)
+        requires sink_wf(old(self)),
+        ensures
+            sink_wf(final(self)),
+            match r {
+                Ok(n) => n <= buf@.len() && sink_bytes(final(self)) == sink_bytes(old(self)) + buf@.subrange(0, n as int),
+                Err(_) => sink_bytes(final(self)) == sink_bytes(old(self)),
+            };
+    fn flush(&mut self) -> (r: io::Result<()>)
+        requires sink_wf(old(self)),
+        ensures sink_wf(final(self)), sink_bytes(final(self)) == sink_bytes(old(self)),
+            r is Ok ==> sink_flushed_len(final(self)) == sink_bytes(final(self)).len();
+    /// std default loop: on Ok exactly buf was accepted, whatever the split / however many Interrupted;
+    /// on Err some prefix of buf was accepted
+    fn write_all(&mut self, buf: &[u8]) -> (r: io::Result<()>)
+        requires sink_wf(old(self)),
+        ensures sink_wf(final(self)),
+            r is Ok ==> sink_bytes(final(self)) == sink_bytes(old(self)) + buf@,
+            r is Err ==> exists|n: int| 0 <= n <= buf@.len() && sink_bytes(final(self)) == sink_bytes(old(self)) + buf@.subrange(0, n);
+}
+
+#[verifier::external_trait_specification]
+pub trait ExRead {
+    type ExternalTraitSpecificationFor: std::io::Read;
+    /// std default loop over `read`: fills buf completely or fails; independent of how reads are split
+    fn read_exact(&mut self, buf: &mut [u8]) -> (r: io::Result<()>)
+        ensures
+            rd_bytes(final(self)) == rd_bytes(old(self)), rd_reliable(final(self)) == rd_reliable(old(self)),
+            rd_loads(final(self)) == rd_loads(old(self)),
+            final(buf)@.len() == old(buf)@.len(),
+            r is Ok ==> 0 <= rd_pos(old(self)) && rd_pos(old(self)) + old(buf)@.len() <= rd_bytes(old(self)).len()
+               && final(buf)@ == rd_bytes(old(self)).subrange(rd_pos(old(self)), rd_pos(old(self)) + old(buf)@.len())
+               && rd_pos(final(self)) == rd_pos(old(self)) + old(buf)@.len(),
+            rd_reliable(old(self)) ==> (r is Ok <==> rd_pos(old(self)) + old(buf)@.len() <= rd_bytes(old(self)).len());
+}
+
+pub open spec fn seek_target(pos: io::SeekFrom, cur: int, len: int) -> int {
+    match pos {
+        io::SeekFrom::Start(n) => n as int,
+        io::SeekFrom::End(d) => len + d as int,
+        io::SeekFrom::Current(d) => cur + d as int,
+    }
+}
+
+#[verifier::external_trait_specification]
+pub trait ExSeek {
+    type ExternalTraitSpecificationFor: std::io::Seek;
+    fn seek(&mut self, pos: io::SeekFrom) -> (r: io::Result<u64>)
+        ensures
+            rd_bytes(final(self)) == rd_bytes(old(self)), rd_reliable(final(self)) == rd_reliable(old(self)),
+            rd_loads(final(self)) == rd_loads(old(self)),
+            0 <= rd_pos(final(self)),
+            r is Ok ==> rd_pos(final(self)) == seek_target(pos, rd_pos(old(self)), rd_bytes(old(self)).len() as int) && r->Ok_0 as int == rd_pos(final(self)),
+            rd_reliable(old(self)) ==> (r is Ok <==> seek_target(pos, rd_pos(old(self)), rd_bytes(old(self)).len() as int) >= 0);
+}
+} // mod vio
+
+/// stand-in for the `byteorder` crate: read_uN/write_uN are read_exact/write_all of the fixed-endian encoding
+pub mod byteorder {
+use vstd::prelude::*;
+use std::io;
+use crate::vio::*;
+use crate::ghost::*;
+pub struct LittleEndian;
+pub struct BigEndian;
+pub trait ByteOrder { spec fn is_be() -> bool; }
+impl ByteOrder for LittleEndian { open spec fn is_be() -> bool { false } }
+impl ByteOrder for BigEndian { open spec fn is_be() -> bool { true } }
+pub open spec fn enc<E: ByteOrder>(x: nat, n: nat) -> Seq<u8> { if E::is_be() { be_bytes(x, n) } else { le_bytes(x, n) } }
+
+pub trait WriteBytesExt: io::Write {
+    #[verifier::external_body]
+    fn write_u8(&mut self, n: u8) -> (r: io::Result<()>)
+        requires sink_wf(old(self)),
+        ensures sink_wf(final(self)), r is Ok ==> sink_bytes(final(self)) == sink_bytes(old(self)) + seq![n],
+            r is Err ==> exists|k: int| 0 <= k <= 1 && sink_bytes(final(self)) == sink_bytes(old(self)) + seq![n].subrange(0, k),
+    { unimplemented!() }
+    #[verifier::external_body]
+    fn write_u32<E: ByteOrder>(&mut self, n: u32) -> (r: io::Result<()>)
+        requires sink_wf(old(self)),
+        ensures sink_wf(final(self)), r is Ok ==> sink_bytes(final(self)) == sink_bytes(old(self)) + enc::<E>(n as nat, 4),
+            r is Err ==> exists|k: int| 0 <= k <= 4 && sink_bytes(final(self)) == sink_bytes(old(self)) + enc::<E>(n as nat, 4).subrange(0, k),
+    { unimplemented!() }
+    #[verifier::external_body]
+    fn write_u64<E: ByteOrder>(&mut self, n: u64) -> (r: io::Result<()>)
+        requires sink_wf(old(self)),
+        ensures sink_wf(final(self)), r is Ok ==> sink_bytes(final(self)) == sink_bytes(old(self)) + enc::<E>(n as nat, 8),
+            r is Err ==> exists|k: int| 0 <= k <= 8 && sink_bytes(final(self)) == sink_bytes(old(self)) + enc::<E>(n as nat, 8).subrange(0, k),
+    { unimplemented!() }
+}
+impl<W: io::Write + ?Sized> WriteBytesExt for W {}
+
+pub open spec fn rd_ok<R: ?Sized>(r0: &R, r1: &R, n: int) -> bool {
+    &&& 0 <= rd_pos(r0) && rd_pos(r0) + n <= rd_bytes(r0).len()
+    &&& rd_pos(r1) == rd_pos(r0) + n
+}
+pub open spec fn rd_frame<R: ?Sized>(r0: &R, r1: &R) -> bool {
+    rd_bytes(r1) == rd_bytes(r0) && rd_reliable(r1) == rd_reliable(r0) && rd_loads(r1) == rd_loads(r0)
+}
+pub trait ReadBytesExt: io::Read {
+    #[verifier::external_body]
+    fn read_u8(&mut self) -> (r: io::Result<u8>)
+        ensures rd_frame(old(self), final(self)),
+            r is Ok ==> rd_ok(old(self), final(self), 1) && seq![r->Ok_0] == rd_bytes(old(self)).subrange(rd_pos(old(self)), rd_pos(old(self)) + 1),
+            rd_reliable(old(self)) ==> (r is Ok <==> rd_pos(old(self)) + 1 <= rd_bytes(old(self)).len()),
+    { unimplemented!() }
+    #[verifier::external_body]
+    fn read_u32<E: ByteOrder>(&mut self) -> (r: io::Result<u32>)
+        ensures rd_frame(old(self), final(self)),
+            r is Ok ==> rd_ok(old(self), final(self), 4) && enc::<E>(r->Ok_0 as nat, 4) == rd_bytes(old(self)).subrange(rd_pos(old(self)), rd_pos(old(self)) + 4),
+            rd_reliable(old(self)) ==> (r is Ok <==> rd_pos(old(self)) + 4 <= rd_bytes(old(self)).len()),
+    { unimplemented!() }
+    #[verifier::external_body]
+    fn read_u64<E: ByteOrder>(&mut self) -> (r: io::Result<u64>)
+        ensures rd_frame(old(self), final(self)),
+            r is Ok ==> rd_ok(old(self), final(self), 8) && enc::<E>(r->Ok_0 as nat, 8) == rd_bytes(old(self)).subrange(rd_pos(old(self)), rd_pos(old(self)) + 8),
+            rd_reliable(old(self)) ==> (r is Ok <==> rd_pos(old(self)) + 8 <= rd_bytes(old(self)).len()),
+    { unimplemented!() }
+}
+impl<R: io::Read + ?Sized> ReadBytesExt for R {}
+} // mod byteorder
+} // verus!
